@@ -85,10 +85,26 @@ GHOST static void gc_bcast_done(void) {
   c_bcast_inflight--;
   c_bdone_credit += c_wbegun;
 }
+static long crowd_waiting, crowd_total_c;
 GHOST static int gc_leftover(void) {
-  int n = 0;
+  int n = (int)crowd_waiting;
   for (int i = 0; i < g_case.n_fibers; i++) n += wstate[i] != 0;
   return n;
+}
+// anonymous crowd waiters: counted as begun waits (a broadcast covers them) and as returns; they never create obligations
+GHOST static void gc_crowd_wait_begin(void) {
+  c_wbegun++;
+  crowd_waiting++;
+}
+GHOST static void gc_crowd_wait_return(void) {
+  vs_rt_enter();
+  crowd_waiting--;
+  c_returns++;
+  long credit = c_sbegun + c_bdone_credit + (c_bcast_inflight ? c_bcast_inflight * c_wbegun : 0);
+  if (c_returns > credit)
+    vs_violation("released_without_signal", "cond: %ld waits have returned but only %ld signals and broadcasts covering %ld waiters were issued", c_returns,
+                 c_sbegun, c_bdone_credit);
+  vs_rt_exit();
 }
 GHOST static void gc_quiescent_check(void) {
   vs_rt_enter();
@@ -112,7 +128,31 @@ static void cond_setup(void) {
       if (!strcmp(g_case.ops[i][j].name, "ctl")) have_ctl = 1;
 }
 
+static void* cond_crowd_body(void* p) {
+  int id = (int)(intptr_t)p;
+  fiber_mutex_lock(&cm);
+  gc_m_acq(id);
+  gc_crowd_wait_begin();
+  gc_m_rel(id);
+  fiber_cond_wait(&cv, &cm);
+  gc_m_acq(id);
+  gc_crowd_wait_return();
+  gc_m_rel(id);
+  fiber_mutex_unlock(&cm);
+  return 0;
+}
 static int cond_do_op(int idx, op_t* op) {
+  if (!strcmp(op->name, "ccrowd")) {
+    // any number of waiters: a further (anonymous) fibers each wait once; whoever signals or broadcasts next meets them, the
+    // controller's broadcast at quiescence releases the rest
+    for (int i = 0; i < op->a; i++) {
+      fiber_t* f = fiber_create(8192, &cond_crowd_body, (void*)(intptr_t)(1000 + crowd_total_c + i));
+      if (!f) vs_violation("engine_limit", "fiber_create failed");
+      fiber_detach(f);
+    }
+    crowd_total_c += op->a;
+    return 1;
+  }
   if (!strcmp(op->name, "cwait")) {
     for (int r = 0; r < (op->a > 0 ? op->a : 1); r++) {
       fiber_mutex_lock(&cm);
@@ -197,6 +237,7 @@ static int cond_at_quiescence(void) {
 GHOST static void cond_final(void) {
   vs_rt_enter();
   if (cfg_get("cond", 0)) {
+    vs_label_max("crowd", (uint64_t)crowd_total_c);
     gc_quiescent_check();
     vs_label_add("cond_waits", c_wbegun);
     vs_label_add("cond_signals_with_waiter", c_signals_with_waiter);
